@@ -241,6 +241,18 @@ vbi_pfc_demux_feed		(vbi_pfc_demux *	dx,
 		if (pgno < 0)
 			goto desynced;
 
+		if ((pgno ^ dx->block.pgno) & 0xF00) {
+			int c11;
+
+			/* EN 300 706 section 9.3.1.3: With C11 (magazine
+			   serial) = 0 magazines are transmitted in parallel
+			   and only a header of the same magazine terminates
+			   a page. */
+			c11 = vbi_unham8 (buffer[9]);
+			if (c11 >= 0 && 0 == (c11 & 1))
+				return TRUE;
+		}
+
 		if (dx->n_packets > 0
 		    && dx->packet <= dx->n_packets) {
 			/* The previous page ends here but its last
